@@ -107,7 +107,47 @@ func Guard() error {
 	return nil
 }
 
+// GuardLayoutOnly performs the reflect-based layout guard without calling any
+// library code (the task scheduler must not perform first use of any part of
+// the API before the concurrent phase).
+func GuardLayoutOnly() error {
+	saved := skipCrossCheck
+	skipCrossCheck = true
+	defer func() { skipCrossCheck = saved }()
+	return Guard()
+}
+
+var skipCrossCheck bool
+
+// LimbsOf splits a value below 2^255 into five 51-bit limbs.
+func LimbsOf(v *big.Int) Limbs {
+	var l Limbs
+	mask := new(big.Int).SetUint64(1<<51 - 1)
+	t := new(big.Int).Set(v)
+	for i := 0; i < 5; i++ {
+		l[i] = new(big.Int).And(t, mask).Uint64()
+		t.Rsh(t, 51)
+	}
+	return l
+}
+
+// MontgomeryOf returns the Montgomery limbs (k * 2^256 mod l) of a scalar value.
+func MontgomeryOf(k *big.Int) ScalarRaw {
+	m := new(big.Int).Lsh(k, 256)
+	m.Mod(m, L)
+	var r ScalarRaw
+	mask := new(big.Int).SetUint64(^uint64(0))
+	for i := 0; i < 4; i++ {
+		r[i] = new(big.Int).And(m, mask).Uint64()
+		m.Rsh(m, 64)
+	}
+	return r
+}
+
 func crossCheck() error {
+	if skipCrossCheck {
+		return nil
+	}
 	// Element: 2^255-20 = p-1 via SetBytes, value must be p-1.
 	b := make([]byte, 32)
 	for i := range b {
